@@ -30,6 +30,9 @@ type vHist struct {
 	trace   []string
 	dead    bool
 	prop    string
+	// after a model-only mismatch the model is no longer consulted for this history; the
+	// specification still is (the failing input may only show a few operations later)
+	modelOff bool
 }
 
 func newVHist(c *Ctx, prop string, opts ...gofakes3.Option) (*vHist, *impl.Instance) {
@@ -81,12 +84,16 @@ func (h *vHist) judge(line, obs, finger, key string) {
 	io, mo := normObs(obs, model)
 	is, so := normObs(obs, spec)
 	if spec != "-" && !strings.HasPrefix(spec, "specversions") && vSpecProj(is) != vSpecProj(so) {
-		if key != "" && h.d5Keys[key] {
+		// the known finding D5 is the behaviour the model reproduces: only an answer that agrees
+		// with the model is attributed to it
+		if key != "" && h.d5Keys[key] && io == mo {
 			fp = h.prop + ":suspended-write-over-enabled-version"
 		}
 		h.c.mismatch(Mismatch{Kind: "spec", Backend: "mem", Case: cs, Impl: obs, Model: model, Spec: spec, Finger: fp})
-	} else if io != mo {
+	} else if io != mo && !h.modelOff {
 		h.c.mismatch(Mismatch{Kind: "model", Backend: "mem", Case: cs, Impl: obs, Model: model, Spec: spec, Finger: fp})
+		h.modelOff = true
+		before = h.c.NMism // the history goes on, judged by the specification alone
 	}
 	if h.c.NMism > before {
 		h.dead = true
@@ -433,7 +440,8 @@ func (h *vHist) listv(q VerListReq, finger string) VerListObs {
 			want = nullIds(spec)
 		}
 		if got != want {
-			if d5 {
+			if d5 && lo.Obs == model {
+				// the known finding D5 is the behaviour the model reproduces
 				fp = "c13:suspended-write-over-enabled-version"
 			}
 			h.c.mismatch(Mismatch{Kind: "spec", Backend: "mem", Case: cs, Impl: got, Model: model, Spec: want, Finger: fp})
